@@ -263,6 +263,56 @@ func (in inst[T]) read(m *common.MultiAsset[T]) refVal {
 	return r
 }
 
+// snap is a complete dump of a real value (listed policies, listed assets incl. zero
+// quantities, every slot's quantity); used by the operand-purity oracle.
+type snap struct {
+	policies, listed int
+	q                [nSlots]string
+}
+
+func (in inst[T]) snapshot(m *common.MultiAsset[T]) snap {
+	var s snap
+	ps := m.Policies()
+	s.policies = len(ps)
+	for _, p := range ps {
+		s.listed += len(m.Assets(p))
+	}
+	for i := 0; i < nSlots; i++ {
+		p, n := slotKey(i)
+		q := m.Asset(p, n)
+		if bv, ok := any(q).(*big.Int); ok && bv == nil {
+			s.q[i] = "-"
+			continue
+		}
+		s.q[i] = in.big(q).String()
+	}
+	return s
+}
+
+// operand is a real object that is reused across operations together with the dump taken
+// right after it was built; pure() reports a violation if an operation changed it.
+type operand[T num] struct {
+	name string
+	m    *common.MultiAsset[T]
+	was  snap
+}
+
+func (in inst[T]) operand(name string, s spec) operand[T] {
+	m := in.build(s, nil)
+	return operand[T]{name, m, in.snapshot(m)}
+}
+
+func (in inst[T]) pure(ord int64, after string, rep map[string]any, ops ...operand[T]) bool {
+	ok := true
+	for _, o := range ops {
+		if now := in.snapshot(o.m); now != o.was {
+			ok = false
+			violation(ord, in.name+"|operand-modified|"+after, fmt.Sprintf("operand %s was %+v before and is %+v after %s", o.name, o.was, now, after), rep)
+		}
+	}
+	return ok
+}
+
 // ---- checks
 
 func (in inst[T]) rep(kind string, specs ...spec) map[string]any {
@@ -346,6 +396,9 @@ func (in inst[T]) unary(ord int64, s spec) {
 			violation(ord, k+"Encode|key-order", fmt.Sprintf("%s: map keys of %x are not in ascending bytewise order of their encodings", s, enc0), in.rep("unary", s))
 		}
 	}
+	if now, was := in.snapshot(a), in.snapshot(in.build(s, nil)); now != was {
+		violation(ord, k+"operand-modified|Encode/Compare", fmt.Sprintf("%s: value is %+v after Compare and Encode, a fresh copy is %+v", s, now, was), in.rep("unary", s))
+	}
 	// decode
 	var d common.MultiAsset[T]
 	if _, err := cbor.Decode(enc0, &d); err != nil {
@@ -399,11 +452,29 @@ func (in inst[T]) pair(ord int64, sa, sb spec) {
 	case ab != want:
 		violation(ord, fmt.Sprintf("%sCompare|≠per-asset-equality|expected=%v", k, want), fmt.Sprintf("a=%s b=%s: Compare=%v, non-zero quantities per asset equal: %v", ra0(in, sa), ra0(in, sb), ab, want), in.rep("pair", sa, sb))
 	}
-	// a+b, b+a on fresh receivers (a and b themselves are not used after this point)
+	rp := in.rep("pair", sa, sb)
+	oa, ob := operand[T]{"a", a, in.snapshot(a)}, operand[T]{"b", b, in.snapshot(b)}
+	in.pure(ord, "Compare", rp, oa, ob)
+	// a+b, b+a on fresh receivers, the operands are the same objects a and b
 	s1, s2 := in.build(sa, nil), in.build(sb, nil)
 	s1.Add(b)
+	in.pure(ord, "Add(operand)", rp, oa, ob)
 	s2.Add(a)
+	in.pure(ord, "Add(operand)", rp, oa, ob)
 	sum := in.refAdd(ra, rb)
+	// the same objects accumulated into an empty value, in both orders, one after the other
+	for _, order := range [2][2]operand[T]{{oa, ob}, {ob, oa}} {
+		acc := in.build(spec{-1, -1, -1, -1}, nil)
+		for step, o := range order {
+			acc.Add(o.m)
+			in.pure(ord, "accumulate-from-empty", rp, oa, ob)
+			if step == 1 {
+				if g := in.read(acc); !refEq(g, sum) {
+					violation(ord, k+"Add|reused-operands≠per-asset-sum", fmt.Sprintf("a=%s b=%s: {}+%s+%s computed from reused operand objects holds %s, per-asset sum is %s", ra0(in, sa), ra0(in, sb), order[0].name, order[1].name, g, sum), rp)
+				}
+			}
+		}
+	}
 	if g := in.read(s1); !refEq(g, sum) {
 		violation(ord, k+"Add|≠per-asset-sum", fmt.Sprintf("a=%s b=%s: a.Add(b) holds %s, per-asset sum is %s", ra0(in, sa), ra0(in, sb), g, sum), in.rep("pair", sa, sb))
 	}
@@ -455,11 +526,81 @@ func (in inst[T]) triple(ord int64, sa, sb, sc spec) {
 	if want := in.refAdd(in.refAdd(ra, rb), rc); !refEq(in.read(l), want) {
 		violation(ord, k+"Add|≠per-asset-sum", fmt.Sprintf("a=%s b=%s c=%s: (a+b)+c holds %s, per-asset sum is %s", ra0(in, sa), ra0(in, sb), ra0(in, sc), in.read(l), want), in.rep("triple", sa, sb, sc))
 	}
+	in.histories(ord, sa, sb, sc)
 	o := "triple:premise-false"
 	if premise {
 		o = "triple:premise-true"
 	}
 	c.Eval("", o)
+}
+
+// histories: sums that reuse the very same operand objects a, b, c. From an empty
+// accumulator and from a non-empty one (a fresh copy of a, and a value holding every slot):
+// all 6 orders of adding a, b, c one after the other; then ab = {}+a+b, (ab)+c, bc = {}+b+c,
+// a+(bc), and again c+b+a. After every single Add every operand object (and every
+// intermediate sum that is used again) must be unchanged and every result must hold the
+// per-asset sums.
+func (in inst[T]) histories(ord int64, sa, sb, sc spec) {
+	rp := in.rep("triple", sa, sb, sc)
+	k := in.name + "|"
+	empty := spec{-1, -1, -1, -1}
+	ops := [3]operand[T]{in.operand("a", sa), in.operand("b", sb), in.operand("c", sc)}
+	refs := [3]refVal{in.ref(sa), in.ref(sb), in.ref(sc)}
+	one := int8(-1)
+	for qi, q := range in.alpha { // index of quantity 1 in this alphabet
+		if in.big(q).Cmp(big.NewInt(1)) == 0 {
+			one = int8(qi)
+		}
+	}
+	starts := []spec{empty, sa, {one, one, one, -1}}
+	check := func(what string, acc *common.MultiAsset[T], want refVal) {
+		if g := in.read(acc); !refEq(g, want) {
+			violation(ord, k+"Add|reused-operands≠per-asset-sum", fmt.Sprintf("a=%s b=%s c=%s: %s computed from reused operand objects holds %s, per-asset sum is %s", ra0(in, sa), ra0(in, sb), ra0(in, sc), what, g, want), rp)
+		}
+	}
+	for _, st := range starts {
+		perm([]int{0, 1, 2}, func(order []int) {
+			acc := in.build(st, nil)
+			want := in.ref(st)
+			for _, i := range order {
+				acc.Add(ops[i].m)
+				want = in.refAdd(want, refs[i])
+				in.pure(ord, "accumulate", rp, ops[:]...)
+				check(fmt.Sprintf("%s + operands in order %v (prefix ending at %s)", ra0(in, st), order, ops[i].name), acc, want)
+			}
+		})
+	}
+	// (a+b)+c and a+(b+c) from the same objects, intermediates reused
+	ab := in.build(empty, nil)
+	ab.Add(ops[0].m)
+	ab.Add(ops[1].m)
+	oab := operand[T]{"(a+b)", ab, in.snapshot(ab)}
+	l := in.build(empty, nil)
+	l.Add(ab)
+	l.Add(ops[2].m)
+	in.pure(ord, "(a+b)+c", rp, ops[0], ops[1], ops[2], oab)
+	bc := in.build(empty, nil)
+	bc.Add(ops[1].m)
+	bc.Add(ops[2].m)
+	obc := operand[T]{"(b+c)", bc, in.snapshot(bc)}
+	r := in.build(empty, nil)
+	r.Add(ops[0].m)
+	r.Add(bc)
+	in.pure(ord, "a+(b+c)", rp, ops[0], ops[1], ops[2], oab, obc)
+	all := in.refAdd(in.refAdd(refs[0], refs[1]), refs[2])
+	check("(a+b)+c", l, all)
+	check("a+(b+c)", r, all)
+	check("a+b", ab, in.refAdd(refs[0], refs[1]))
+	check("b+c", bc, in.refAdd(refs[1], refs[2]))
+	if !l.Compare(r) || !r.Compare(l) {
+		violation(ord, k+"Add|not-associative", fmt.Sprintf("a=%s b=%s c=%s (reused objects): (a+b)+c=%s, a+(b+c)=%s", ra0(in, sa), ra0(in, sb), ra0(in, sc), l.String(), r.String()), rp)
+	}
+	in.pure(ord, "Compare", rp, ops[0], ops[1], ops[2], oab, obc)
+	z := in.build(empty, nil)
+	z.Add(ops[2].m)
+	z.Add(ops[1].m)
+	z.Add(ops[0].m)
+	check("c+b+a after a+b+c", z, all)
 }
 
 // shape: per slot a = absent, z = zero quantity, n = negative, p = positive (evidence class)
@@ -688,7 +829,7 @@ func main() {
 	}
 	flush()
 
-	c.Set("rule", "per instantiation (*big.Int, int64, uint64): every partial map over 2 policies x 2 names with <=3 entries (quick: <=2 for int64/uint64, and the second operand of a pair has <=2 entries) and quantities from the 7-value alphabet; every value (reflexivity, encode key order/content by own CBOR reader, identical bytes for all 24 insertion orders x2, decode->Compare both ways, no zero left, self-add); every ordered pair (Compare symmetric and = per-asset equality of non-zero quantities; a+b, b+a = per-asset sums, Compare-equal, equal to the value built from the sums); every ordered triple of the sub-universe (transitivity, associativity, per-asset sum). distinct = (instantiation, value) for the unary checks and (instantiation, sign pattern of a, sign pattern of b) with pattern = absent/zero/negative/positive per slot for pairs; triples are not counted as distinct classes")
+	c.Set("rule", "per instantiation (*big.Int, int64, uint64): every partial map over 2 policies x 2 names with <=3 entries (quick: <=2 for int64/uint64, and the second operand of a pair has <=2 entries) and quantities from the 7-value alphabet; every value (reflexivity, encode key order/content by own CBOR reader, identical bytes for all 24 insertion orders x2, decode->Compare both ways, no zero left, self-add); every ordered pair (Compare symmetric and = per-asset equality of non-zero quantities; a+b, b+a = per-asset sums, Compare-equal, equal to the value built from the sums); every ordered triple of the sub-universe (transitivity, associativity, per-asset sum; histories that reuse the same operand objects: all 6 accumulation orders from an empty, an equal-to-a and a full accumulator, (a+b)+c, a+(b+c), c+b+a). Operand purity: after every Compare/Encode/Add every operand object must equal the dump taken when it was built. distinct = (instantiation, value) for the unary checks and (instantiation, sign pattern of a, sign pattern of b) with pattern = absent/zero/negative/positive per slot for pairs; triples are not counted as distinct classes")
 	c.Assume("math/big is trusted for the reference arithmetic; int64/uint64 reference = arithmetic modulo 2^64 (Go's native semantics)")
 	c.Finish()
 }
